@@ -6,7 +6,8 @@
 For every directory: a scratch worktree of /repo's HEAD gets the patch, the quick checks run with HV_REPO/HV_SANDBOX pointing at
 scratch locations under /tmp (own cargo target directories, evidence and replays), the outcome is printed and written to
 <dir>/partest.json, and worktree and sandbox are removed.  --own: the property named in <dir>/meta.json (seeded changes);
---all (default): all 14 properties (behaviour-preserving changes, where any alarm is a false alarm)."""
+--all (default): all 14 properties (behaviour-preserving changes, where any alarm is a false alarm);
+--out FILE: write one summary (e.g. seeded/REGRESSION.json) instead of a partest.json per directory."""
 import json
 import os
 import re
@@ -17,6 +18,7 @@ from concurrent.futures import ThreadPoolExecutor
 
 VERIF = os.path.dirname(os.path.dirname(os.path.abspath(__file__)))
 ALL = ["C%02d" % i for i in range(1, 15)]
+OUTFILE = None
 
 
 def sh(cmd, cwd=None, timeout=7200, env=None):
@@ -73,7 +75,8 @@ def one(mdir, props, own):
             sys.stdout.flush()
     finally:
         sh("git -C /repo worktree remove --force %s; rm -rf %s %s" % (wt, wt, sb))
-    json.dump(res, open(os.path.join(mdir, "partest.json"), "w"), indent=1, ensure_ascii=False)
+    if not OUTFILE:
+        json.dump(res, open(os.path.join(mdir, "partest.json"), "w"), indent=1, ensure_ascii=False)
     return mdir, res
 
 
@@ -87,6 +90,9 @@ def main():
             j = int(args[i + 1]); i += 2
         elif args[i] == "--props":
             props = args[i + 1].split(","); i += 2
+        elif args[i] == "--out":
+            global OUTFILE
+            OUTFILE = args[i + 1]; i += 2
         elif args[i] == "--own":
             own = True; i += 1
         elif args[i] == "--all":
@@ -95,6 +101,14 @@ def main():
             dirs.append(args[i]); i += 1
     with ThreadPoolExecutor(max_workers=j) as ex:
         results = list(ex.map(lambda d: one(d, props, own), dirs))
+    if OUTFILE:
+        summ = {}
+        for mdir, res in results:
+            sid = os.path.basename(mdir)
+            summ[sid] = res if "error" in res else {p: dict(exit=r["exit"], identities=[w["identity"] for w in r["reports"]],
+                                                            no_failing_input=all("no-failing-input-found" in l for l in r["lines"]) if r["lines"] else None)
+                                                    for p, r in res.items()}
+        json.dump(summ, open(OUTFILE, "w"), indent=1, ensure_ascii=False)
     for mdir, res in results:
         if "error" in res:
             print(mdir, "ERROR", res["error"])
